@@ -154,6 +154,10 @@ def analyse_unit(r, tops, allowed_assumptions, support=None):
         out['assumptions'].append({'kind': 'std-documented-loop', 'allowed': True,
                                    'name': 'T5: `v.extend((a..b).rev())` is the loop pushing b-1, b-2, .., a (Extend / Rev<Range> as documented); '
                                            'the loop is verified, the equivalence is assumed'})
+    if any(by_path[p].short == 'vals_of' for p in cone if p in by_path):
+        out['assumptions'].append({'kind': 'std-documented-loop', 'allowed': True,
+                                   'name': 'T5b: `buf.iter().map(|e| e.val).collect()` is the loop pushing e.val for every element in order '
+                                           '(slice::Iter / Map / FromIterator for Vec as documented); the loop is verified, the equivalence is assumed'})
     return out
 
 
